@@ -4,6 +4,7 @@ import (
 	"flag"
 	"fmt"
 	"math"
+	"math/big"
 	"math/rand"
 	"time"
 
@@ -23,9 +24,15 @@ func init() {
 var aggKinds = []string{"count", "sum", "avg", "min", "max", "array_agg", "count_distinct", "sum_distinct", "avg_distinct", "array_agg_distinct"}
 var aggVKs = []string{"int", "float", "dur"}
 
+// value kinds of the replay only: the atoms scaled by bigK = 2^53+1, so that sums and averages lie outside the integers a float64
+// represents exactly.  Every aggregate commutes with the scaling (K > 0): Agg(K*M) = K*Agg(M), AVG truncating K*n/d.
+var aggReplayVKs = []string{"int", "float", "dur", "intbig", "durbig"}
+
+const bigK = int64(1)<<53 + 1
+
 func vkType(vk string) octosql.Type {
 	switch vk {
-	case "int":
+	case "int", "intbig":
 		return octosql.Int
 	case "float":
 		return octosql.Float
@@ -38,6 +45,10 @@ func atomValue(vk string, a int) octosql.Value {
 	switch vk {
 	case "int":
 		return octosql.NewInt(int64(a))
+	case "intbig":
+		return octosql.NewInt(int64(a) * bigK)
+	case "durbig":
+		return octosql.NewDuration(time.Duration(int64(a) * bigK))
 	case "float":
 		return octosql.NewFloat(float64(a) / 4)
 	}
@@ -110,6 +121,16 @@ func aggMatches(kind, vk string, got octosql.Value, exp map[string]interface{}) 
 		return got.TypeID == octosql.TypeIDInt && got.Int == int64(n)
 	}
 	switch vk {
+	case "intbig", "durbig":
+		// exact: trunc(K * n / d) with the rational n/d exported by TLC
+		q := new(big.Int).Quo(new(big.Int).Mul(big.NewInt(bigK), big.NewInt(int64(n))), big.NewInt(int64(d)))
+		if !q.IsInt64() {
+			return true // outside int64: wrap-around is not specified here
+		}
+		if vk == "intbig" {
+			return got.TypeID == octosql.TypeIDInt && got.Int == q.Int64()
+		}
+		return got.TypeID == octosql.TypeIDDuration && int64(got.Duration) == q.Int64()
 	case "int":
 		return got.TypeID == octosql.TypeIDInt && got.Int == int64(tr)
 	case "dur":
@@ -138,7 +159,7 @@ func aggReplay(args []string) error {
 		exp := c["exp"].(map[string]interface{})
 		for _, kind := range aggKinds {
 			e := exp[kind].([]interface{})
-			for _, vk := range aggVKs {
+			for _, vk := range aggReplayVKs {
 				a, ok := newAggregate(kind, vk)
 				if !ok {
 					missing[kind+"/"+vk] = true
